@@ -845,4 +845,99 @@ theorem mpCreateClass_partial (env : CcEnv) (hq : env.nsInQualcache = true)
     · simp [noLeak, h]
     · exact absurd hc (hne c)
 
+/-! ### line text -/
+
+theorem lineText_one (src : Str) : lineText src 1 = src.takeWhile (· != 10) := by
+  cases src <;> rfl
+
+theorem lineText_succ_nl (xs : Str) (n : Nat) : lineText (10 :: xs) (n + 2) = lineText xs (n + 1) := by
+  simp [lineText]
+
+theorem lineText_succ_ne (x : Nat) (xs : Str) (n : Nat) (h : x ≠ 10) :
+    lineText (x :: xs) (n + 2) = lineText xs (n + 2) := by
+  have hb : (x != 10) = true := by simp [h]
+  simp [lineText, List.dropWhile, hb]
+
+theorem countNl_cons (x : Nat) (xs : Str) : countNl (x :: xs) = (if x = 10 then 1 else 0) + countNl xs := by
+  simp only [countNl, List.count_cons]
+  by_cases h : x = 10
+  · subst h; simp; omega
+  · simp [h]
+
+/-- the witness form of "inside the text" implies the line-text form -/
+theorem insideAt_lineText : ∀ (src : Str) (k c : Nat), k ≤ src.length → c ≤ k →
+    countNl ((src.take k).drop (k - c)) = 0 → c ≤ (lineText src (1 + countNl (src.take k))).length := by
+  intro src
+  induction src with
+  | nil => intro k c hk hc _; simp at hk; omega
+  | cons x xs ih =>
+    intro k c hk hc h0
+    cases k with
+    | zero => omega
+    | succ k =>
+      have hk' : k ≤ xs.length := by simpa using hk
+      rw [List.take_succ_cons] at h0 ⊢
+      by_cases hck : c ≤ k
+      · -- the column range does not reach back to x
+        have e : k + 1 - c = (k - c) + 1 := by omega
+        rw [e, List.drop_succ_cons] at h0
+        have := ih k c hk' hck h0
+        rw [countNl_cons]
+        by_cases hx : x = 10
+        · subst hx
+          have e2 : 1 + ((if (10:Nat) = 10 then 1 else 0) + countNl (xs.take k)) = countNl (xs.take k) + 2 := by simp; omega
+          rw [e2, lineText_succ_nl]
+          have e3 : countNl (xs.take k) + 1 = 1 + countNl (xs.take k) := by omega
+          rw [e3]; exact this
+        · simp only [hx, if_false, Nat.zero_add]
+          cases hm : countNl (xs.take k) with
+          | zero =>
+            rw [hm] at this
+            simp only [Nat.add_zero, lineText_one] at this ⊢
+            have hb : (x != 10) = true := by simp [hx]
+            simp only [List.takeWhile, hb, List.length_cons]; omega
+          | succ m =>
+            rw [hm] at this
+            have e2 : 1 + (m + 1) = m + 2 := by omega
+            rw [e2] at this ⊢
+            rw [lineText_succ_ne x xs m hx]; exact this
+      · -- c = k + 1: the whole prefix (x included) has no newline
+        have hc' : c = k + 1 := by omega
+        subst hc'
+        simp only [Nat.sub_self, List.drop_zero] at h0
+        rw [countNl_cons] at h0
+        have hx : x ≠ 10 := by intro e; subst e; simp at h0
+        simp only [hx, if_false, Nat.zero_add] at h0
+        have := ih k k hk' (Nat.le_refl _) (by simpa using h0)
+        rw [countNl_cons]
+        simp only [hx, if_false, Nat.zero_add, h0] at this ⊢
+        simp only [Nat.add_zero, lineText_one] at this ⊢
+        have hb : (x != 10) = true := by simp [hx]
+        simp only [List.takeWhile, hb, List.length_cons]; omega
+
+/-! ### per-compiler state -/
+
+theorem stepCall_embedded (s : PState) (c : Call) (h : s.embedded = none) : (stepCall s c).embedded = none := by
+  cases c with
+  | str m n f e ok =>
+    simp only [stepCall, compileString]
+    split
+    · simpa [applyEffect, compilePrologue] using h
+    · split <;> simpa [applyEffect, compilePrologue] using h
+  | emb m n e ok => simp [stepCall, compileEmbedded]
+
+theorem runCalls_embedded (cs : List Call) : ∀ (s : PState), s.embedded = none → (runCalls s cs).embedded = none := by
+  induction cs with
+  | nil => intro s h; simpa [runCalls] using h
+  | cons c cs ih => intro s h; simp only [runCalls, List.foldl_cons]; exact ih _ (stepCall_embedded s c h)
+
+theorem addKey_mem (ks : List Nat) (k x : Nat) (h : x ∈ ks) : x ∈ addKey ks k := by
+  unfold addKey; split <;> simp [h]
+
+theorem foldl_addKey_mem (ns : List Nat) : ∀ (ks : List Nat) (x : Nat), x ∈ ks → x ∈ ns.foldl addKey ks := by
+  induction ns with
+  | nil => intro ks x h; simpa using h
+  | cons n ns ih => intro ks x h; simp only [List.foldl_cons]; exact ih _ x (addKey_mem ks n x h)
+
+
 end Pywbem.Model.MofCompile
